@@ -9,7 +9,7 @@ set -u
 export GOFLAGS=-mod=mod GOPROXY=off GOSUMDB=off GOTOOLCHAIN=local
 unset GOWORK
 D="$(cd "$1" && pwd)"; shift
-PROPS="${@:-C01 C02 C04 C05 C07 C08 C09 C10 C11 C12 C14 C15 C16 C17 C18 C19 C20}"
+PROPS="${@:-C01 C02 C03 C04 C05 C06 C07 C08 C09 C10 C11 C12 C13 C14 C15 C16 C17 C18 C19 C20}"
 DEMO="$D/demo_test.go"; [ -f "$DEMO" ] || DEMO="$D/demo_test.go.txt"
 DEMODIR="."; RACE=""
 if [ -f "$D/meta.json" ]; then
